@@ -95,9 +95,15 @@ DocPathOk(e) == PathRun(e.init, e.steps, 1)
 
 (* C15 *)
 CursorOk(e) ==
-    LET want == CursorWalk(e.kv, e.pending, e.forward = 1, e.target) IN
+    \* one cursor, sought twice: at most e.steps entries from the first target (the cursor stays on the last one
+    \* it read), then everything from the second target on - a seek forgets where the cursor stood
+    LET want  == CursorWalk(e.kv, e.pending, e.forward = 1, e.target)
+        want2 == CursorWalk(e.kv, e.pending, e.forward = 1, e.target2)
+        k     == IF e.steps < Len(want) THEN e.steps ELSE Len(want)
+    IN
     /\ e.err = ""
-    /\ e.obs = want
+    /\ e.obs = SubSeq(want, 1, k)
+    /\ e.obs2 = want2
     /\ \A i \in DOMAIN e.gets : e.gets[i][2] = GetOf(e.kv, e.pending, e.gets[i][1])
 
 (* C02: the range the planner derives for the selected index field contains the field value of  *)
